@@ -176,10 +176,12 @@ func Specs() map[string]*PropSpec {
 	}
 	m["C03"] = &PropSpec{
 		ID: "C03", Pkgs: []string{"./app/ante/evm", "./app/ante/cosmos"},
-		Quick:    []Inst{{Pkg: "app/ante/evm", Fn: "VerifC03_Nonce", Params: pm("msgs", "3")}, {Pkg: "app/ante/cosmos", Fn: "VerifC03_Eip712Sequence", Params: pm(), EngineReplay: true}},
-		Thorough: []Inst{{Pkg: "app/ante/evm", Fn: "VerifC03_Nonce", Params: pm("msgs", "4")}, {Pkg: "app/ante/cosmos", Fn: "VerifC03_Eip712Sequence", Params: pm(), EngineReplay: true}},
+		Quick:    []Inst{{Pkg: "app/ante/evm", Fn: "VerifC03_Nonce", Params: pm("msgs", "3")}, {Pkg: "app/ante/cosmos", Fn: "VerifC03_Eip712Sequence", Params: pm(), EngineReplay: true},
+			{Pkg: "app/ante/evm", Fn: "VerifC03_EthChainID", Params: pm(), EngineReplay: true}},
+		Thorough: []Inst{{Pkg: "app/ante/evm", Fn: "VerifC03_Nonce", Params: pm("msgs", "4")}, {Pkg: "app/ante/cosmos", Fn: "VerifC03_Eip712Sequence", Params: pm(), EngineReplay: true},
+			{Pkg: "app/ante/evm", Fn: "VerifC03_EthChainID", Params: pm(), EngineReplay: true}},
 		Bounds: map[string]string{
-			"quick":    "Ethereum transactions of <= 3 messages by 2 senders in any interleaving (legacy and dynamic-fee), any nonces, any account sequences < 2^62; immediate replay of the accepted transaction",
+			"quick":    "Ethereum transactions of <= 3 messages by 2 senders in any interleaving (legacy and dynamic-fee), any nonces, any account sequences < 2^62; immediate replay of the accepted transaction; chain binding on the Ethereum route: one legacy (any v < 2^40), access-list or dynamic-fee (any chain id < 2^40) transaction through the signature decorator with go-ethereum's signer selection and chain-id check executed, AllowUnprotectedTxs on/off",
 			"thorough": "<= 4 messages",
 		},
 		Outside:     []string{"signature validity (keccak-256, RLP, secp256k1 recovery, EIP-712 typed-data hashing): cannot be encoded for an SMT solver within reach", "that a signature verifies only for the exact signed content (inside VerifySignature / go-ethereum)", "the plain Cosmos route (SDK SigVerificationDecorator) and the non-legacy EIP-712 path"},
